@@ -225,6 +225,7 @@ class Universe:
     def lens(self):
         d = {b.id: b.len for b in self.blobs.values()}
         d["ABSENT"] = 0
+        d["UNREADABLE"] = 0
         return d
 
     # entries
